@@ -69,7 +69,17 @@ t = ['## 8. Seeded changes: which check catches which\n',
      'me (`tools/verify_seed.sh`: with the change the demonstration fails and the 775 existing tests pass; without it the demonstration '
      'passes), applied to /repo (`git apply`), run against the checks, and undone (`git checkout -- .`). None is committed in /repo. '
      '%d changes are kept, one or more per property; %d of them were missed or only half caught (a broken correspondence without a failing '
-     'input) by the check as it stood and led to a stronger generator or a tighter classification, recorded in the last column.\n' % (len(allseeds), missed),
+     'input) by the check as it stood and led to a stronger generator or a tighter classification, recorded in the last column. The '
+     'changes came in four rounds (one per property in the first three, ten properties in the fourth), each round told what the earlier '
+     'ones had changed so that it would look elsewhere; `tools/recheck_seeds.sh` re-applies every stored change to a scratch worktree '
+     'and runs the quick check of its property (developer mode `VERIF_ALT_REPO`), and all of them are reported by the checks as they '
+     'stand now. What the misses had in common, and what was done about each kind: a public entry point the harness never called '
+     '(typed single-object writers, `from_value`, `write_avro_datum_ref`, `parse_str_with_list`, `Reader::into_deser_iter`, the '
+     '`Writer` methods beside `append_value_ref`, deserialization into targets that ignore fields) - section 2 lists what is driven now; '
+     'a boundary the generators never hit (lengths of 64 and 65535 bytes, 1024 items, 64 symbols, block sizes after growth, compression '
+     'ratios above 1000:1); state carried from one call to the next (a writer reused after a failure, a second writer in the process, a '
+     'codec after a failed frame, a block after a consumed block); and three known-finding classes that were broad enough to swallow a '
+     'new defect (section 7).\n' % (len(allseeds), missed),
      '| seeded change | property | what it does | outcome |\n|---|---|---|---|']
 for n, m in sorted(allseeds):
     t.append('| `%s` | %s | %s | %s |' % (n, m['property'], str(m.get('summary', '')).replace('|', '/').replace('\n', ' ')[:330], str(m.get('caught_by', '')).replace('|', '/')[:420]))
